@@ -7,7 +7,7 @@ from vf.ob import obligation, shard
 from tartiflette import Resolver
 
 META = {
-    "bounds": "request sequences of length <= 3 over a pool of 13 documents (valid incl. fragments on interface / implementer, variables nested in object/list literals and multi-operation, invalid, syntactically broken, "
+    "bounds": "request sequences of length <= 3 over a pool of 15 documents (valid incl. fragments on interface / implementer, variables nested in object/list literals and multi-operation, invalid, syntactically broken, "
               "runtime-failing) x str/bytes spelling x per-request int variable (unbounded) x operation name; 4 cache configurations: default lru_cache(512) (real, CrossHair's cache "
               "bypass removed), lru_cache(1), custom dict decorator, cache disabled",
     "outside": "sequences longer than 3; cache decorators other than these four",
@@ -83,14 +83,18 @@ POOL = [
     "{ pets { ...C } } fragment C on Cat { name }",                       # valid: a fragment on one implementer inside the interface-typed selection
     "{ dog { ...C } } fragment C on Cat { name }",                        # invalid (5.5.2.3): Cat can never apply inside Dog
     b"{ a \xff }",                                                        # bytes that are not valid UTF-8 (always sent as bytes): a syntax error, cached or not
+    "{ ...UF } fragment UF on Query { a ...EX } fragment EX on Query { nn ...UF }",            # invalid: fragment cycle
+    "{ ...UF } fragment UF on Query { ...EX a } fragment EX on Query { nn }",                 # valid, re-uses the fragment names of the cyclic document
 ]
 I32 = 2 ** 31
 
 
 def oracle(idx, v, opsel):
     """the response every engine must give, written by hand from the pool: (data or None, has errors)"""
-    if idx in (4, 5, 6, 11, 12):
+    if idx in (4, 5, 6, 11, 12, 13):
         return None, True
+    if idx == 14:
+        return {"nn": 1, "a": 7}, False
     provided = "$v" in POOL[idx] and not (idx in (3, 8) and v is None)
     if provided and v is not None and not (-I32 <= v < I32):
         return None, True                 # variable coercion refuses the request
@@ -159,14 +163,14 @@ def send(eng, idx, v, asbytes, opsel):
 
 SH16 = [{"cfg": c, "first": f, "second": g, "b1": b, "o": o} for c in ENGS for f in range(len(POOL)) for g in range(len(POOL)) for b in (1, 0) for o in (1, 0) if c == "default" or (b, o) == (1, 1)]
 Q16 = [i for i, s in enumerate(SH16) if ((s["b1"], s["o"]) == (1, 1) or (s["cfg"], s["first"], s["second"], s["b1"], s["o"]) == ("default", 3, 3, 0, 0)) and (s["cfg"], s["first"], s["second"]) in (("default", 0, 0), ("default", 1, 1), ("default", 2, 2), ("default", 3, 3), ("default", 6, 0), ("default", 4, 1),
-                                                                               ("lru1", 1, 0), ("lru1", 2, 4), ("default", 9, 10), ("default", 11, 10), ("default", 12, 12), ("dict", 12, 0), ("lru1", 0, 12), ("none", 9, 10), ("lru1", 11, 9), ("dict", 10, 9), ("dict", 2, 2), ("dict", 8, 8), ("none", 1, 1), ("default", 7, 7))]
+                                                                               ("lru1", 1, 0), ("lru1", 2, 4), ("default", 9, 10), ("default", 11, 10), ("default", 12, 12), ("dict", 12, 0), ("lru1", 0, 12), ("default", 13, 14), ("none", 13, 14), ("lru1", 14, 13), ("dict", 13, 13), ("none", 9, 10), ("lru1", 11, 9), ("dict", 10, 9), ("dict", 2, 2), ("dict", 8, 8), ("none", 1, 1), ("default", 7, 7))]
 
 
 @obligation(tier="quick", timeout=300, thorough_timeout=900, shards=SH16, quick_shards=Q16,
             samples=[{"i2": 1, "v0": 1, "v1": 2, "b1": True, "o": True}, {"i2": 0, "v0": 2**31, "v1": None, "b1": False, "o": False}],
             symbolic=["v0: int, v1: Optional[int] — the variables of the first two requests (unbounded); the third request reuses v0"],
             selectors=["i2: pool index of the 3rd request", "shard: cache configuration, first and second request, str/bytes spelling of the 2nd request (the 3rd uses the other one), operation name / failure selector"],
-            bounds="sequences of 3 requests (every prefix is checked position by position) over 13 documents",
+            bounds="sequences of 3 requests (every prefix is checked position by position) over 15 documents",
             note="every response of the sequence == the uncached engine's response to the same request; repeating a request gives the same response; failed/invalid requests leave no trace")
 def c16_history(i2: int, v0: int, v1: Optional[int], b1: bool, o: bool) -> bool:
     """
